@@ -6,6 +6,7 @@ import json, os, time
 import vlib
 
 PROP = "C02"
+TOLERATED = []   # cases whose harness process died with the signature of open finding F-C04-1 (c)
 
 
 def gen_behaviours(tier, seed):
@@ -37,10 +38,11 @@ def gen_behaviours(tier, seed):
 
 def replay_cases(cases, seed):
     vh = vlib.build_vh()
-    results, errs = vlib.run_vh_parallel(vh, ["replay-layout"], cases)
+    results, errs, tol = vlib.run_vh_parallel(vh, ["replay-layout"], cases, tolerate=vlib.f_c04_1_death)
+    TOLERATED.extend(tol)
     if errs:
         raise vlib.Infra(f"harness process failed: {errs[0]}")
-    if len(results) != len(cases):
+    if len(results) + len(tol) != len(cases):
         raise vlib.Infra(f"harness returned {len(results)} results for {len(cases)} cases")
     return results
 
@@ -53,6 +55,9 @@ def run(tier, seed):
     infra = [r for r in results if r.get("infra")]
     if infra:
         raise vlib.Infra(f"harness infra error: {infra[0]}")
+    if TOLERATED:
+        print(f"KNOWN-FINDING: property={PROP} F-C04-1 the store process died {len(TOLERATED)} times at close with an unbalanced tsspFile reference count "
+              f"(negative WaitGroup counter / close blocked in wg.Wait); those cases are not judged")
     bad = [r for r in results if not r["ok"]]
     known = [r for r in results if r.get("known")]
     open_ids = {f["id"] for f in vlib.load_known("C01")} | {f["id"] for f in vlib.load_known(PROP)}
